@@ -629,6 +629,7 @@ def fam_cluster(tier, base):
     lines = verif.read_lines(trace)
     cnt = lambda s: sum(1 for ln in lines if s in ln)
     runs, faults, crashes = cnt('"ev":"Run"'), cnt('"class":"injected"'), cnt('"ev":"Crash"')
+    refdev = sorted({v["sig"] for v in viols if v["property"] == "REF"})
     envfail = cnt('"class":"envfail"')
     if envfail > max(3, runs // 50):
         raise Broken("the embedded etcd failed %d times in %d runs (overloaded machine?): too many runs could not be judged" % (envfail, runs))
@@ -636,7 +637,7 @@ def fam_cluster(tier, base):
                 configs=[cfg, "MC_ClusterCreate_fixed.cfg", "MC_ClusterCreate_asfound.cfg", "Trace_Cluster.cfg"], window=80,
                 traces={"*": runs, "C14": crashes}, samples={"*": [json.loads(x) for x in lines[:2]]},
                 nontrivial={"C10": runs, "C11": faults, "C12": cnt('"kind":"create","op":"op"'), "C13": cnt('"obs":['), "C14": crashes, "C20": cnt('"target":"lock"'), "C22": runs, "C30": cnt('"ev":"Call","kind":"lambda"')},
-                notes="%d TLC-enumerated scenarios (node layout x pre-deployed workloads x operation); each run fault-free and then with every single-fault placement (deployments: every %s single-fault / crash placement) among its external calls: %d runs, %d injected failures, %d crashes followed by recovery in a fresh core instance" % (len(sel), "%d-th" % every if every > 1 else "", runs, faults, crashes))
+                notes="%d TLC-enumerated scenarios (node layout x pre-deployed workloads x operation); each run fault-free and then with every single-fault placement (deployments: every %s single-fault / crash placement) among its external calls: %d runs, %d injected failures, %d crashes followed by recovery in a fresh core instance; deviations outside the listed properties (control calls; diagnostic): %s" % (len(sel), "%d-th" % every if every > 1 else "", runs, faults, crashes, refdev or "none"))
 
 
 _A_CL = ["real calcium.Calcium on an embedded etcd with the real cobalt manager + cpumem plugin and a real bbolt WAL; store, manager and WAL are wrapped through the verif hook, engines are stateful fakes substituted on every node/workload",
